@@ -20,7 +20,7 @@ from queue import Queue, Empty
 
 VERIF = os.path.dirname(os.path.dirname(os.path.abspath(__file__)))
 REPO = "/repo"
-ROOT = "/tmp/vst"
+ROOT = "/tmp/vst-%d" % os.getpid()
 
 
 def sh(cmd, **kw):
